@@ -537,7 +537,7 @@ AUDITED_U16_SUB = {
 }
 
 
-@rule("C14.9", ["C14", "C10"], ["E5", "E8"], "the probe-size arithmetic cannot leave the u16 range",
+@rule("C14.9", ["C14", "C10", "C18"], ["E5", "E8"], "the probe-size arithmetic cannot leave the u16 range",
       "link_mtu, min_ss and max_ss are u16 and a loopback-sized link MTU (65535) is a legal setting. Every checked u16 addition / subtraction in mtu.rs is bounded symbolically from min_ss <= max_ss (C14.7) and "
       "max_ss <= 65535 - 48 (the headers SegmentSizes::new subtracts; segments never exceed max_ss, C14.1): max_ss - min_ss cannot underflow, min_ss + (max_ss - min_ss) / k <= max_ss, a bound of the "
       "form max_ss + c is in range for c <= 48, constants are summed. An addition whose operands are only known to be u16 each (e.g. min_ss + max_ss) overflows for link MTUs above 32 KiB: a panic in "
